@@ -444,6 +444,62 @@ mut("C12", "ip-prefix-string-drops-32", ("types/ipaddr.go", '''	if i.Prefix().Bi
 	}
 	return i.Prefix().String()'''))
 
+# ---- C13
+mut("C13", "entity-tags-dropped-when-no-attrs", ("types/entity.go", '''		parents,
+		e.Attributes,
+		e.Tags,
+	}''', '''		parents,
+		e.Attributes,
+		e.Tags,
+	}
+	if e.Attributes.Len() == 0 {
+		m.Tags = Record{}
+	}'''))
+mut("C13", "long-range-unchecked", ("types/json.go", '''		l, err := vv.Int64()
+		if err != nil {
+			return fmt.Errorf("%w: %w", errJSONLongOutOfRange, err)
+		}
+		*v = Long(l)''', '''		l, err := vv.Int64()
+		if err != nil {
+			f, _ := vv.Float64()
+			l = int64(f)
+		}
+		*v = Long(l)'''))
+mut("C13", "set-wrap-order", ("types/set.go", '''		if k < s.s[k].hash() {''', '''		if false && k < s.s[k].hash() {'''))
+mut("C13", "decimal-json-arg-float", ("types/decimal.go", '''		Extn: &extn{
+			Fn:  "decimal",
+			Arg: d.String(),
+		},''', '''		Extn: &extn{
+			Fn:  "decimal",
+			Arg: strconv.FormatFloat(d.Float(), 'f', 4, 64),
+		},'''))
+mut("C13", "coerce-set-first-only", ("x/exp/types/json.go", '''	for elem := range set.All() {
+		coerced := coerceValue(elem, typ.Element)
+		if !coerced.Equal(elem) {
+			changed = true
+		}
+		elems = append(elems, coerced)
+	}''', '''	for elem := range set.All() {
+		coerced := elem
+		if !changed {
+			coerced = coerceValue(elem, typ.Element)
+		}
+		if !coerced.Equal(elem) {
+			changed = true
+		}
+		elems = append(elems, coerced)
+	}'''))
+mut("C13", "entityuid-implicit-needs-only-type", ("types/entity_uid.go", '''	} else if res.Type != nil && res.ID != nil { // require both Type and ID to parse "implicit" JSON
+		e.Type = EntityType(*res.Type)
+		e.ID = String(*res.ID)
+		return nil
+	}''', '''	} else if res.Type != nil { // require both Type and ID to parse "implicit" JSON
+		e.Type = EntityType(*res.Type)
+		if res.ID != nil {
+			e.ID = String(*res.ID)
+		}
+		return nil
+	}'''))
 # ---- C20
 mut("C20", "unmarshal-merges", ("policy_set.go", """	*p = PolicySet{
 		policies: make(PolicyMap, len(jsonPolicySet.StaticPolicies)),
